@@ -140,6 +140,111 @@ def directed(report, drv, backend, rng, keys):
         check_session(report, drv, backend, rng, keys, "directed-" + name, msgs=msgs)
 
 
+def midstream_cancel(report, backend, keys, rounds=12):
+    """subscriptions CLOSEd (or replaced by a REQ of the same id) while their stored events are still streaming — more often
+    than the storage has query slots: every later REQ must still be answered.  The stream is stopped from outside: the
+    connection's subscription queue lets the first stored event of a query through and keeps the second `put` waiting, so the
+    cancellation hits a query task that holds whatever a running query holds."""
+    import asyncio
+    from lib import proto
+    from lib.proto import Relay, Conn
+
+    relay = Relay(backend)
+    orig_put = proto._RecQueue.put
+    state = {"queue": None, "gated": True, "puts": {}, "gate": None}
+
+    async def put(self, item):
+        if self is state["queue"] and state["gated"] and isinstance(item, tuple) and len(item) == 2 and item[1] is not None:
+            n = state["puts"].get(item[0], 0) + 1
+            state["puts"][item[0]] = n
+            if n >= 2:
+                proto.HELD["n"] += 1
+                try:
+                    await state["gate"].wait()
+                finally:
+                    proto.HELD["n"] -= 1
+        return await orig_put(self, item)
+
+    proto._RecQueue.put = put
+    # SQL: the stream is (also) stopped where a real one waits — in the fetch of the next row, inside storage.run_query — so that
+    # the cancellation is delivered *into* the query generator, as it is when a CLOSE arrives while the database is working
+    orig_anext = None
+    if backend == "sql":
+        from sqlalchemy.ext.asyncio import AsyncResult
+
+        orig_anext = AsyncResult.__anext__
+        async def anext(self_):
+            if state["gated"] and state["gate"] is not None:
+                self_._verif_rows = getattr(self_, "_verif_rows", 0) + 1     # (not id(): ids are reused after collection)
+                if self_._verif_rows >= 2:
+                    proto.HELD["n"] += 1
+                    try:
+                        await state["gate"].wait()
+                    finally:
+                        proto.HELD["n"] -= 1
+            return await orig_anext(self_)
+
+        AsyncResult.__anext__ = anext
+    try:
+        pub = Conn(relay, remote_addr="3.3.3.3")
+        for i in range(6):
+            pub.send_event(relay.signed_event(keys[i % len(keys)], kind=1, content="stored %d %s" % (i, backend), created_at=1700000000 + i))
+        c = Conn(relay)
+        c.send(["REQ", "warmup", {"kinds": [7]}])
+        state["queue"] = c._queue
+
+        async def mkgate():
+            state["gate"] = asyncio.Event()
+        relay.run(mkgate())
+        payload = {"backend": backend, "case": "midstream-cancel", "rounds": rounds}
+        for i in range(rounds):
+            name = "s%d" % i
+            n = len(c.out)
+            c.send(["REQ", name, {"kinds": [1]}])
+            got = [f for f in c.frames(n) if isinstance(f, list) and f[0] == "EVENT" and f[1] == name]
+            if not got:
+                report.property_failure("%s: round %d: an accepted REQ streamed nothing although 6 events match (after %d subscriptions "
+                                        "were ended mid-stream)" % (backend, i, i), payload, None)
+                break
+            if any(isinstance(f, list) and f[0] == "EOSE" and f[1] == name for f in c.frames(n)):
+                report.count("midstream_not_midstream")
+            # end it mid-stream: CLOSE, or a REQ reusing the id (even rounds / odd rounds)
+            if i % 2 == 0:
+                c.send(["CLOSE", name])
+            else:
+                c.send(["REQ", name, {"ids": ["nothex"]}])
+        state["gated"] = False
+
+        async def opengate():
+            state["gate"].set()
+        relay.run(opengate())
+        relay.settle()
+        n = len(c.out)
+        c.send(["REQ", "final", {"kinds": [1]}])
+        fr = c.frames(n)
+        evs = [f for f in fr if isinstance(f, list) and f[0] == "EVENT" and f[1] == "final"]
+        eose = [f for f in fr if isinstance(f, list) and f[0] == "EOSE" and f[1] == "final"]
+        if len(evs) != 6 or len(eose) != 1:
+            report.property_failure("%s: after %d subscriptions were ended while their stored events were streaming, an accepted REQ was "
+                                    "answered with %d of 6 events and %d EOSE" % (backend, rounds, len(evs), len(eose)), payload, None)
+        # and on another connection
+        d = Conn(relay, remote_addr="4.4.4.4")
+        n = len(d.out)
+        d.send(["REQ", "other", {"kinds": [1]}])
+        if not any(isinstance(f, list) and f[0] == "EOSE" and f[1] == "other" for f in d.frames(n)):
+            report.property_failure("%s: after %d mid-stream cancellations another connection's REQ got no EOSE" % (backend, rounds), payload, None)
+        late = [f for f in c.frames() if isinstance(f, list) and f[0] in ("EVENT", "EOSE") and str(f[1]).startswith("s") and f[1] != "final"]
+        report.case(("midstream", backend), nontrivial=True, sample={"case": "midstream-cancel", "backend": backend, "rounds": rounds})
+        report.count("midstream_cancel_runs")
+        for x in (c, d, pub):
+            x.close()
+    finally:
+        proto._RecQueue.put = orig_put
+        if orig_anext is not None:
+            AsyncResult.__anext__ = orig_anext
+        relay.close()
+
+
 def run(report, tier, seed):
     rng = random.Random(seed)
     drv = common.Driver()
@@ -150,12 +255,15 @@ def run(report, tier, seed):
         "sessions of 8-22 messages (plus a burst past subscription_limit=3 and a replacement at the limit) on 2-4 connections "
         "through the real start_client on both backends: REQ with 0-3 filters (valid / invalid / not-a-query; subscription ids "
         "strings, numbers, null, with quotes), CLOSE of open and unknown ids, EVENT (new / resubmitted / bad signature), "
-        "disconnect and late connect; the loop is settled after every message; non-trivial = the session has a refused REQ or a CLOSE")
+        "disconnect and late connect; 12 (thorough: 40) subscriptions CLOSEd or replaced while their stored events are streaming "
+        "(the stream is stopped from outside after its first event), then fresh REQs on the same and on another connection; "
+        "the loop is settled after every message; non-trivial = the session has a refused REQ or a CLOSE")
     report.assumptions += ["quiescence after every message (interleavings inside a step are whatever the event loop does; "
                            "all interleavings are covered by the theorems over `run`, not by this check)"]
     try:
         for backend in ("sql", "kv"):
             directed(report, drv, backend, rng, keys)
+            midstream_cancel(report, backend, keys, rounds=12 if tier == "quick" else 40)
         for i in range(10 if tier == "quick" else 250):
             for backend in ("sql", "kv"):
                 check_session(report, drv, backend, rng, keys, i)
